@@ -12,6 +12,7 @@ CONSTANTS
   InsLevels = {100000000, 990000000, 2000000000}
   OptIns = {TRUE, FALSE}
   After <- BqAfter
+  BkrStates = {0, 1, 2, 3}
   MaxDepth = 4
 VIEW ViewB
 CHECK_DEADLOCK FALSE
